@@ -1,6 +1,6 @@
 From Coq Require Import ZArith List Bool Lia.
 From Arsenal Require Import Util.
-From Arsenal Require VamDev VamBlockList Vam VamInv VamInvMeta VamInvStep VamInvThm VamFailProps VamAcctThm VamBal VamBalThm VamFailBal.
+From Arsenal Require VamDev VamBlockList Vam VamInv VamInvMeta VamInvStep VamInvThm VamFailProps VamAcctThm VamBal VamBalThm VamFailBal VamInvUpd VamRefused.
 From Arsenal Require Import SyncMem SyncMemProofs Budget BudgetProofs.
 Import ListNotations.
 Open Scope Z_scope.
@@ -95,4 +95,11 @@ Theorem C10_allocator_failed_create_no_trace : forall c v G o f v' code calls,
   end.
 Proof. intros c v G o f v' code calls Ha. exact (VamFailBal.failed_create_no_trace c Ha v G o f v' code calls). Qed.
 Print Assumptions C10_allocator_failed_create_no_trace.
+(* failed CreatePool, exact: the device holds the same memory objects (id, type, size, order) as before - every
+   block created for the pool was destroyed again - and the pools are as before *)
+Theorem C10_allocator_failed_create_pool_same_memory : forall c v ty flags blockSize minB maxB minAlign f v' code calls,
+  cfg_ok c -> VamInv c v -> step c v (OMkPool ty flags blockSize minB maxB minAlign) f = (v', RErr code, calls) ->
+  VamInvUpd.mems_same (m_mems (v_m v)) (m_mems (v_m v')) /\ VamRefused.pools_same v v'.
+Proof. intros c v ty flags blockSize minB maxB minAlign f v' code calls Hc. exact (VamRefused.failed_create_pool_same_memory c Hc v ty flags blockSize minB maxB minAlign f v' code calls). Qed.
+Print Assumptions C10_allocator_failed_create_pool_same_memory.
 End Allocator.
